@@ -118,7 +118,17 @@ pub fn enumerate_test_cases(
     src: Arc<Mutex<dyn ParsingSource>>,
     input_path: &Path,
 ) -> MosResult<Vec<(SpanLoc, IdentifierPath)>> {
-    let mut ctx = generate(src, input_path, CodegenOptions::default())?;
+    // Tests are enumerated in the same configuration they run in (the TEST constant is defined)
+    let mut predefined_constants = HashMap::new();
+    predefined_constants.insert("TEST".into(), 1);
+    let mut ctx = generate(
+        src,
+        input_path,
+        CodegenOptions {
+            predefined_constants,
+            ..Default::default()
+        },
+    )?;
     struct DummyMemoryAccessor;
     impl MemoryAccessor for DummyMemoryAccessor {
         fn read(&mut self, _: u16, _: usize) -> Vec<u8> {
